@@ -392,12 +392,6 @@ func (e *Env) c05DoneAfterFinalize() {
 	g := sp.g
 	ob := r.Ob("R4", "Execute:finalize≺Done", "a Done signal that can follow the command is preceded on all paths by the completed finalisation (declared renames, temp-dir removal) and the slot release")
 	obc := r.Ob("R4", "Execute:close(Done)", "Task.Done is closed only by the deferred close at the end of Execute")
-	const (
-		evRun core.Bits = 1 << iota
-		evRenDone
-		evRm
-		evRel
-	)
 	renExit := map[*core.Node]bool{}
 	for _, n := range sp.declRename {
 		ex, _ := loopExitNodes(g, n)
@@ -406,42 +400,49 @@ func (e *Env) c05DoneAfterFinalize() {
 		}
 	}
 	isRm := nodeSet(sp.rmTemp)
+	// "the command ran and X has not happened since": generated at the command, killed by X; evaluated on the
+	// feasible subgraph (returned errors correlated with their tests), so the skip path and fatal paths do not count
+	const (
+		pendRen core.Bits = 1 << iota
+		pendRm
+		pendRel
+	)
 	tf := func(n *core.Node) core.Transfer {
-		var b core.Bits
+		var t core.Transfer
 		if a.isRun(n) {
-			b |= evRun
+			t.Gen = pendRen | pendRm | pendRel
 		}
 		if renExit[n] {
-			b |= evRenDone
+			t.Kill |= pendRen
 		}
 		if isRm[n] {
-			b |= evRm
+			t.Kill |= pendRm
 		}
 		if a.isRelease(n) {
-			b |= evRel
+			t.Kill |= pendRel
 		}
-		return core.Transfer{Gen: b}
+		return t
 	}
-	// must-sets on the subgraph that is feasible once returned errors are correlated with their tests
-	must, may := g.Run(core.Scenario{Start: g.Entry}).Must(tf), g.Forward(tf, false)
+	pending := g.Run(core.Scenario{Start: g.Entry, AtEntry: true}).May(tf)
 	nd := 0
 	for _, n := range g.Select(a.isDoneSend) {
 		nd++
-		if may[n]&evRun == 0 {
-			ob.OK(g.Where(n), "skip-path Done (no command can precede it)")
+		pb := pending[n]
+		if pb == 0 {
+			ob.OK(g.Where(n), "no path reaches this Done with the command run and finalisation/release pending")
 			continue
 		}
 		miss := []string{}
-		if must[n]&evRenDone == 0 {
+		if pb&pendRen != 0 {
 			miss = append(miss, "all declared outputs renamed")
 		}
-		if must[n]&evRm == 0 {
+		if pb&pendRm != 0 {
 			miss = append(miss, "temp dir removed")
 		}
-		if must[n]&evRel == 0 {
+		if pb&pendRel != 0 {
 			miss = append(miss, "slots released")
 		}
-		ob.Check(len(miss) == 0, g.Where(n), "finalisation and release precede Done", "Done can be signalled before: "+strings.Join(miss, ", ")+" (Run could return, or dependants start, while the task's outputs are not final)")
+		ob.Fail(g.Where(n), "after the command ran, Done can be signalled before: "+strings.Join(miss, ", ")+" (Run could return, or dependants start, while the task's outputs are not final)")
 	}
 	if nd == 0 {
 		ob.Fail(core.FuncName(a.execute), "Task.Execute never signals Done")
